@@ -338,11 +338,19 @@ def run_check(pid, tier="quick", runs=None, workers=None, verif_seed=None, write
               for s in range(0, budget, CHUNK)]
     results = {}
     errors = []
+    big = {"shapes": set(), "traces": set()}
+
+    def absorb(r):
+        # the hash sets are order independent: merge them at once and drop them from the chunk result
+        big["shapes"] |= r.pop("shapes")
+        big["traces"] |= r.pop("traces")
+        r["shapes"] = r["traces"] = ()
     truncated = False
     stop_early = False
     if workers <= 1:
         for c in chunks:
             r = _worker(c)
+            absorb(r)
             results[c[2]] = r
             if r["error"]:
                 errors.append(r["error"])
@@ -369,6 +377,7 @@ def run_check(pid, tier="quick", runs=None, workers=None, verif_seed=None, write
                         for f in futs:
                             f.cancel()
                         break
+                    absorb(r)
                     results[c[2]] = r
                     if r["error"]:
                         errors.append(r["error"])
@@ -392,8 +401,6 @@ def run_check(pid, tier="quick", runs=None, workers=None, verif_seed=None, write
         r = results[start]
         for k in ("evaluations", "runs", "steps", "sim_time", "capped", "breaches", "fault_free"):
             merged[k] += r[k]
-        merged["shapes"] |= r["shapes"]
-        merged["traces"] |= r["traces"]
         merged["faults"].update(r["faults"])
         merged["probes"].update(r["probes"])
         merged["known"].update(r["known"])
@@ -401,6 +408,8 @@ def run_check(pid, tier="quick", runs=None, workers=None, verif_seed=None, write
         merged["digests"].extend(r["digests"])
         if len(merged["samples"]) < 3:
             merged["samples"].extend(r["samples"][: 3 - len(merged["samples"])])
+    merged["shapes"] = big["shapes"]
+    merged["traces"] = big["traces"]
     # ---- violations: minimise, write replay, confirm in a fresh interpreter
     exit_code = 0
     lines = []
